@@ -455,6 +455,161 @@ func init() {
 		}
 		return setBig(ex, a[0], IntV{T: t, Lo: big.NewInt(0), Hi: hi})
 	})
+	regA("TrailingZeroBits", func(ex *Exec, a []Value, c *ssa.CallCommon) Value {
+		x := ex.bigAbs(bigArg(ex, a[0]))
+		if x.IsConst() {
+			return ConstInt(int64(x.Const().TrailingZeroBits()))
+		}
+		if ex.decide(Eq(x.T, IntConst64(0))) {
+			return ConstInt(0)
+		}
+		maxN := int64(ex.Opt.MaxDigits) * 4
+		_, hi := ex.bounds(x)
+		last := int64(-1) // at bit BitLen(hi)-1 the remaining value is 1: no decision needed
+		if hi != nil && int64(hi.BitLen()) <= maxN {
+			last = int64(hi.BitLen()) - 1
+		}
+		// halving chain with fresh variables (cur = 2h + b): purely linear, no mod terms
+		cur := x.T
+		for n := int64(0); n <= maxN; n++ {
+			h := ex.freshVar("tzh", SInt)
+			b := ex.freshVar("tzb", SInt)
+			ex.assumeT(Eq(cur, Add(Mul(IntConst64(2), h), b)))
+			ex.assumeT(Le(IntConst64(0), b))
+			ex.assumeT(Le(b, IntConst64(1)))
+			ex.assumeT(Le(IntConst64(0), h))
+			if n == last {
+				return ConstInt(n)
+			}
+			if ex.decide(Eq(b, IntConst64(1))) {
+				return ConstInt(n)
+			}
+			ex.assumeT(Le(IntConst64(1), h))
+			cur = h
+		}
+		ex.stop("unwind", "TrailingZeroBits beyond bound")
+		return ConstInt(0)
+	})
+	// Euclidean division (math/big Div/Mod/DivMod): the remainder is never negative.
+	euclid := func(ex *Exec, x, y IntV) (IntV, IntV) {
+		q, r := ex.bigQuoRem(x, y)
+		rlo, _ := ex.bounds(r)
+		if rlo != nil && rlo.Sign() >= 0 {
+			return q, r
+		}
+		if ex.decide(Lt(r.T, IntConst64(0))) {
+			if ex.decide(Lt(y.T, IntConst64(0))) {
+				return ex.bigAdd(q, ConstBig(bigOneI)), ex.bigAdd(r, ex.bigNeg(y))
+			}
+			return ex.bigAdd(q, ConstBig(big.NewInt(-1))), ex.bigAdd(r, y)
+		}
+		return q, r
+	}
+	regA("Div", func(ex *Exec, a []Value, c *ssa.CallCommon) Value {
+		q, _ := euclid(ex, bigArg(ex, a[1]), bigArg(ex, a[2]))
+		return setBig(ex, a[0], q)
+	})
+	regA("Mod", func(ex *Exec, a []Value, c *ssa.CallCommon) Value {
+		_, r := euclid(ex, bigArg(ex, a[1]), bigArg(ex, a[2]))
+		return setBig(ex, a[0], r)
+	})
+	regA("DivMod", func(ex *Exec, a []Value, c *ssa.CallCommon) Value {
+		q, r := euclid(ex, bigArg(ex, a[1]), bigArg(ex, a[2]))
+		setBig(ex, a[0], q)
+		setBig(ex, a[3], r)
+		return TupleV{a[0], a[3]}
+	})
+	// Methods with no symbolic model at Level A: evaluated with math/big when every operand is
+	// concrete, otherwise the path ends as unsupported (UNDECIDED, never a pass or an alarm).
+	constOnly := func(name string, nBig int, f func(z *big.Int, xs []*big.Int, ints []int64) *big.Int) {
+		regA(name, func(ex *Exec, a []Value, c *ssa.CallCommon) Value {
+			var xs []*big.Int
+			var ints []int64
+			for i, v := range a[1:] {
+				if i < nBig {
+					x := bigArg(ex, v)
+					if !x.IsConst() {
+						ex.unsupported("BigInt.%s on a symbolic value (Level A)", name)
+					}
+					xs = append(xs, x.Const())
+				} else if iv, ok := v.(IntV); ok {
+					if !iv.IsConst() {
+						ex.unsupported("BigInt.%s with a symbolic argument (Level A)", name)
+					}
+					ints = append(ints, iv.Const().Int64())
+				}
+			}
+			return setBig(ex, a[0], ConstBig(f(new(big.Int), xs, ints)))
+		})
+	}
+	constOnly("And", 2, func(z *big.Int, x []*big.Int, _ []int64) *big.Int { return z.And(x[0], x[1]) })
+	constOnly("Or", 2, func(z *big.Int, x []*big.Int, _ []int64) *big.Int { return z.Or(x[0], x[1]) })
+	constOnly("Xor", 2, func(z *big.Int, x []*big.Int, _ []int64) *big.Int { return z.Xor(x[0], x[1]) })
+	constOnly("AndNot", 2, func(z *big.Int, x []*big.Int, _ []int64) *big.Int { return z.AndNot(x[0], x[1]) })
+	constOnly("Not", 1, func(z *big.Int, x []*big.Int, _ []int64) *big.Int { return z.Not(x[0]) })
+	constOnly("Sqrt", 1, func(z *big.Int, x []*big.Int, _ []int64) *big.Int {
+		if x[0].Sign() < 0 {
+			return z
+		}
+		return z.Sqrt(x[0])
+	})
+	constOnly("SetBit", 1, func(z *big.Int, x []*big.Int, i []int64) *big.Int { return z.SetBit(x[0], int(i[0]), uint(i[1])) })
+	constOnly("MulRange", 0, func(z *big.Int, _ []*big.Int, i []int64) *big.Int { return z.MulRange(i[0], i[1]) })
+	constOnly("Binomial", 0, func(z *big.Int, _ []*big.Int, i []int64) *big.Int { return z.Binomial(i[0], i[1]) })
+	for _, name := range []string{"GCD", "ModInverse", "ModSqrt", "ProbablyPrime", "Rand", "Bits", "SetBits", "MathBigInt", "SetMathBigInt",
+		"Format", "Scan", "GobEncode", "GobDecode", "MarshalJSON", "UnmarshalJSON", "MarshalText", "UnmarshalText", "Size",
+		"inner", "innerOrNil", "innerOrAlias", "innerOrNilOrAlias", "updateInner"} {
+		name := name
+		regA(name, func(ex *Exec, a []Value, c *ssa.CallCommon) Value {
+			ex.unsupported("BigInt.%s is not modelled at Level A (the coefficient is a mathematical integer)", name)
+			return nil
+		})
+	}
+	// Representation queries at Level A: WHICH representation holds a value is not part of the
+	// integer abstraction, so it is an arbitrary choice per (object, value) constrained only by
+	// the representation invariant (inline values are below 2^128) - the same over-approximation
+	// as Level B's arbitrary valid pre-state.
+	inlineChoice := func(ex *Exec, recv Value, x IntV) *Term {
+		pp := recv.(PtrV)
+		key := fmt.Sprintf("%p/%v/%p", pp.Obj, pp.Path, x.T)
+		if ex.inlMemo == nil {
+			ex.inlMemo = map[string]*Term{}
+		}
+		if t, ok := ex.inlMemo[key]; ok {
+			return t
+		}
+		t := ex.freshVar("inline", SBool)
+		lim := new(big.Int).Lsh(bigOneI, 128)
+		ex.assumeT(Implies(t, And(Lt(Neg(IntConst(lim)), x.T), Lt(x.T, IntConst(lim)))))
+		ex.inlMemo[key] = t
+		return t
+	}
+	regA("isInline", func(ex *Exec, a []Value, c *ssa.CallCommon) Value {
+		return BoolV{inlineChoice(ex, a[0], bigArg(ex, a[0]))}
+	})
+	regA("innerAsUint64", func(ex *Exec, a []Value, c *ssa.CallCommon) Value {
+		x := bigArg(ex, a[0])
+		inl := inlineChoice(ex, a[0], x)
+		ax := ex.bigAbs(x)
+		ok := And(inl, Le(ax.T, IntConst(bvMask(64))))
+		val := IntV{T: Ite(ok, ax.T, IntConst64(0)), Lo: big.NewInt(0), Hi: bvMask(64)}
+		neg := And(ok, Lt(x.T, IntConst64(0)))
+		return TupleV{val, BoolV{neg}, BoolV{ok}}
+	})
+	regA("updateInnerFromUint64", func(ex *Exec, a []Value, c *ssa.CallCommon) Value {
+		v := unbounded(ex, a[1].(IntV))
+		neg := a[2].(BoolV).T
+		if neg.IsFalse() {
+			setBig(ex, a[0], v)
+		} else if neg.IsTrue() {
+			setBig(ex, a[0], ex.bigNeg(v))
+		} else if ex.decide(neg) {
+			setBig(ex, a[0], ex.bigNeg(v))
+		} else {
+			setBig(ex, a[0], v)
+		}
+		return nil
+	})
 	levelAIntercepts[apdP+"NewBigInt"] = func(ex *Exec, a []Value, c *ssa.CallCommon) Value {
 		o := ex.newObject(unbounded(ex, a[0].(IntV)), "NewBigInt", nil)
 		return PtrV{Obj: o}
